@@ -8,13 +8,14 @@ the theorems state equality (`∀ k, lookup k a = lookup k b`).
 
 Full-strength goal (DESIGN §4):   ∀ d ∈ descriptors, d.agree        — and from it, for every kind,
   normal-form round trip (`flat_normal_roundtrip`), stability (`flat_stable`), nothing lost
-  (`flat_keeps_field`, `flat_keeps_unknown`), nothing invented (`flat_nothing_invented`).
+  (`flat_keeps_field`, `flat_keeps_unknown`), nothing invented (`flat_nothing_invented`);
+  over the whole document tree: `rt_stable_partial` (deep stability, by induction; exclusion `JV.clean`).
 `all_kinds_agree` holds of the tree at full strength since the repairs 901ea22 (RequestBody.content /
 OAuthFlow.scopes: a nil map is written as {}, former class RequiredMapAbsent) and 2f6387f (an empty type list
 is omitted, former class EmptyTypeList); `requiredMap_fixed`, `emptyTypes_fixed` are the regression theorems
 on the former witnesses. Open: DateExampleTrim (`dateTrim_witness`).
 -/
-import KinModel.Lemmas.C03
+import KinModel.Lemmas.C03Deep
 import KinModel.Gen.Descriptors
 namespace KinModel.Marshal
 open KinModel.Gen
@@ -347,6 +348,63 @@ theorem kind_names_distinct : (descriptors.map (·.name)).Nodup := by decide
 theorem ref_wrappers_uniform :
     (descriptors.filter (fun d => d.template == .ref)).length = 10 ∧
     ∀ d ∈ descriptors, d.template = .ref → d.uniform = true := by decide
+
+/-! ## composition over nesting: the whole document tree -/
+
+/-- the side conditions of the deep induction hold of every row of the regenerated table: struct kinds agree,
+    every child shape fits the Go type class of its field, the date post-processing reads plain fields, no
+    wrapper / alias stands for a bare type list -/
+theorem table_deepOK : ∀ d ∈ descriptors, d.deepOK = true := by decide
+
+/- Full-strength statement (fails on this tree: open finding F-C03-1, `dateTrim_witness`):
+     rt_stable : rt descriptors n s v = .ok v1 → rt descriptors n s v1 = .ok v1 -/
+
+/-- Deep stability for any table that satisfies the side conditions — every shape (struct kinds, reference
+    wrappers, map-like containers, named maps, lists, `Types`, `AdditionalProperties`), any nesting depth, any
+    input (redundant defaults, nulls, unknown keys, extensions, siblings of `$ref` included): what the first trip
+    (parse, serialise) writes is a fixed point — parsing and serialising it again gives exactly the same JSON.
+    Exclusion `JV.clean`: no object of the input is changed by the date-trimming statement (class
+    DateExampleTrim, at every depth), and every `$ref` member is a non-empty string. Induction over the fuel
+    with the invariant `Inv` (Lemmas/C03Deep.lean). -/
+theorem rt_stable_of_table (T : List Desc) (hT : ∀ d ∈ T, d.deepOK = true) (n : Nat) (s : Shape) (v v1 : JV)
+    (hc : v.clean = true) (h : rt T n s v = .ok v1) : rt T n s v1 = .ok v1 :=
+  (rt_inv hT n).idem s v v1 hc h
+
+/-- … and so for the table of this repository -/
+theorem rt_stable_partial (n : Nat) (s : Shape) (v v1 : JV) (hc : v.clean = true)
+    (h : rt descriptors n s v = .ok v1) : rt descriptors n s v1 = .ok v1 :=
+  rt_stable_of_table descriptors table_deepOK n s v v1 hc h
+
+/-- nothing is invented at any depth as far as references go: an object without a `$ref` member never
+    acquires one (no hypothesis on the input) -/
+theorem rt_invents_no_ref (n : Nat) (s : Shape) (kvs kvs1 : Obj)
+    (h : rt descriptors n s (.obj kvs) = .ok (.obj kvs1)) (hl : lookup "$ref" kvs = none) :
+    lookup "$ref" kvs1 = none :=
+  (rt_inv table_deepOK n).noRef s kvs kvs1 h hl
+
+/-- a value never becomes null in the trip (only an empty type list does) -/
+theorem rt_keeps_non_null (n : Nat) (s : Shape) (v v1 : JV) (hs : s ≠ .types)
+    (h : rt descriptors n s v = .ok v1) (hn : v.isNull = false) : v1.isNull = false :=
+  (rt_inv table_deepOK n).nn s v v1 hs h hn
+
+/-- non-vacuity of `rt_stable_partial`: a nested document with redundant defaults, a null entry, an extension,
+    an unknown key and a reference with a sibling is in scope, the first trip returns a value that differs from
+    the input, and the second trip returns that value again -/
+example :
+    let v : JV := .obj [("type", .arr [.str "object"]), ("title", .str ""), ("x-e", .num 1 0), ("bogus", .null),
+      ("properties", .obj [("a", .obj [("$ref", .str "#/components/schemas/A"), ("description", .str "sib")]),
+                           ("b", .null),
+                           ("c", .obj [("items", .obj [("type", .arr []), ("format", .str "date"), ("example", .str "2020-01-02")])])])]
+    v.clean = true ∧
+    (match rt descriptors 12 (.kind "openapi3.Schema") v with
+     | .ok v1 => (match v1 with
+                  | .obj [("properties", .obj [("a", .obj [("$ref", _)]), ("b", .null), ("c", .obj [("items", .obj [("example", _), ("format", _)])])]),
+                          ("type", .str "object"), ("x-e", _), ("bogus", .null)] =>
+                    (match rt descriptors 12 (.kind "openapi3.Schema") v1 with
+                     | .ok (.obj [("properties", _), ("type", .str "object"), ("x-e", _), ("bogus", .null)]) => true
+                     | _ => false)
+                  | _ => false)
+     | _ => false) = true := by decide
 
 /-! ## witnesses (inside the exclusions the model differs from the spec) and non-vacuity -/
 
